@@ -2,9 +2,10 @@ package c03
 
 import (
 	"fmt"
+	"os"
+	"path/filepath"
 	"sort"
 	"strings"
-	"path/filepath"
 	"testing"
 	"time"
 
@@ -79,6 +80,13 @@ func canonSet(in map[string]bool) map[string]bool {
 func TestCheck(t *testing.T) {
 	r := runner.Start("C03", "model_checking")
 	if qcheck.HandleReplay(r, []qcheck.Spec{{Name: "c03-hist", Extra: grants}}, nil) {
+		r.Finish()
+	}
+	if runner.ReplayPath() != "" && replayDuration(r, t) {
+		r.Finish()
+	}
+	if os.Getenv("VERIF_C03_PART") == "durations" { // development switch
+		durationsPart(r, t)
 		r.Finish()
 	}
 	historyPart(r)
@@ -186,6 +194,7 @@ func TestCheck(t *testing.T) {
 	if _, child := runner.IsShard(); !child && runner.ReplayPath() == "" {
 		dispatcherPart(r, t)
 		restartPart(r, t)
+		durationsPart(r, t)
 	}
 	r.Assume("the virtual clock advances only while no store operation is in flight (operations take microseconds, leases seconds)")
 	r.Assume("scheduling points are the synchronisation operations of the store (mutex, atomics, SQLite connection acquisition); code between them is thread-local provided it is data-race free (side condition checked by a separate free-running -race pass)")
